@@ -144,6 +144,18 @@ in this list breaks `C17_types_eq_xlsx_partial`. -/
 theorem C17_dedupe_exact : Xlsx.types.flatMap TypeRow.droppedRows = r7Dropped :=
   Lemmas.dedupe_exact
 
+/-- **The types, with every exception named.** Applying the rule and removing exactly the listed row(s) is the same thing on
+the current spreadsheet; hence the compiled types are the spreadsheet's rows minus exactly `r7Dropped` (one row, by type,
+name and value), with exactly the three names of `f14` rewritten — a statement in which neither the `deprecated` mark nor
+the rule occurs. The `--spec` oracle of the family `profilerows` is this right-hand side (before `f14`). -/
+theorem C17_types_eq_xlsx_listed :
+    Xlsx.types.map TypeRow.dedupe = Xlsx.types.map (TypeRow.dropListed r7Dropped) ∧
+    Prof.types = Xlsx.types.map (fun t => (t.dropListed r7Dropped).fix f14) := by
+  refine ⟨Lemmas.dedupe_eq_listed, ?_⟩
+  have h := congrArg (List.map (TypeRow.fix f14)) Lemmas.dedupe_eq_listed
+  simp only [List.map_map] at h
+  exact Lemmas.types_eq_xlsx_partial.trans h
+
 /-- **R7 loses no value.** Every row R7 drops has a surviving alias in the same type — same value, another name, not
 deprecated (for `forecast`: `hourly_forecast = 1`) — hence every value of every spreadsheet type is the value of a
 constant of the type as generated. (The second half is proved from the first for all types, `TypeRow.dedupe_no_value_lost`;
